@@ -25,7 +25,7 @@ add('C15', 'exploration', 'complete enumeration of converter round trips and inj
     'Trusts the independent notation tables in vf/model and enum lookup by member name.', '5/C15')
 add('C16', 'exploration', 'exhaustive range (walked twice) + Hypothesis integers up to 10**5000 against the WBF band table; oddness, monotonicity, two-score form',
     'enumeration+hypothesis',
-    'Exhaustive over [-20000,20000] (quick) / [-200000,200000] (thorough); beyond that generated integers of '
+    'Exhaustive over [-20000,20000] (quick) / [-200000,200000] (thorough) and over every value within 3 of a power of two up to 2**1100; beyond that generated integers of '
     'arbitrary magnitude, threshold neighbours, ordered pairs and the two-score form.',
     'Trusts vf/model/imps.py as a transcription of the WBF scale.', '5/C16')
 
@@ -33,7 +33,7 @@ add('C01', 'exploration', 'bounded-exhaustive + Hypothesis stateful/random walks
     'hypothesis-inprocess',
     'All legal call sequences to depth 3/4 are enumerated and random walks reach the 319-call auction; at every '
     'prefix all 38 calls are offered (illegal ones live, legal ones on deep copies) and every observable is '
-    'compared with a model written from the Laws. Sampling beyond depth 4: no counterexample among N walks.',
+    'compared with a model written from the Laws; one auction in six runs on an object re-initialised after another auction. Sampling beyond depth 4: no counterexample among N walks.',
     'Trusts vf/model/auction.py; deepcopy of BiddingPhase yields an independent equal object.', '5/C01')
 add('C02', 'exploration', 'shape-exhaustive + Hypothesis walks: rotation and exact end against the model',
     'hypothesis-inprocess',
@@ -61,17 +61,17 @@ add('C05', 'fault_enumeration', 'fault injection at generated positions of gener
 add('C06', 'exploration', 'Hypothesis hands x led card + reached board states against an independent follow-suit set',
     'hypothesis-inprocess',
     'Static hands of 1-13 cards x any led card, and every state of generated boards (every seat on the table manager, own and dummy hand on all '
-    'observers), also after refused plays, plus RandomPlay under seeds drawn by Hypothesis.',
+    'observers), also after refused plays and after deep copies of every phase were played ahead and discarded, plus RandomPlay under seeds drawn by Hypothesis and one RandomPlay object serving concurrent decisions under every line-level schedule with <= 1 deviation.',
     'RandomPlay uses the global RNG, seeded from drawn integers.', '5/C06')
 add('C11', 'exploration', 'differential between five replicas in process; bundled clients vs server log in simulated sessions',
     'hypothesis-inprocess+sim-sessions',
     'Five replicas of the play state machine are compared after every card of generated boards, with refused actions offered to all of them in between; simulated sessions '
-    'compare each bundled client\'s view with the server\'s log.',
+    'compare each bundled client\'s view with the server\'s log; a few bundled-client sessions per run are repeated on real threads and real loopback sockets (same oracle, byte-identical log).',
     'Simulation kernel fidelity (DESIGN.md section 4).', '5/C11')
 add('C14', 'exploration', 'Hypothesis deals through four encoder/decoder round trips (decode - modify - decode again) + independent canonical PBN renderer; line-level schedule enumeration of concurrent dealers and codecs',
     'hypothesis-inprocess',
     'Generated full and partial deals x 4 first seats x 8 numpy dtypes; each encoding decoded back and the PBN text '
-    'compared with an independent renderer; every decoder called again after its first result was modified; random dealer under drawn seeds; pairs of concurrent calls on a freshly imported package under every line-level schedule with <= 1 deviation.',
+    'compared with an independent renderer; deal objects obtained by constructor, rebound attributes, in-place change, copy, deepcopy and pickle; every decoder called again after its first result was modified; random dealer under drawn seeds; pairs of concurrent calls on a freshly imported package under every line-level schedule with <= 1 deviation.',
     'Trusts vf/model/pbn.py.', '5/C14')
 
 add('C12', 'exploration', 'Hypothesis documents: writer -> json.loads + jsonschema + parser round trip (field-by-field, value-object types), StringIO and real files in five encodings, failed writes in between; atheris on the same test (thorough)',
@@ -83,12 +83,12 @@ add('C12', 'exploration', 'Hypothesis documents: writer -> json.loads + jsonsche
 add('C17', 'exploration', 'Hypothesis boards x generated file layouts rendered by an independent PBN renderer -> parser round trip; atheris on the same tests (thorough)',
     'hypothesis-inprocess+atheris',
     'JSON: writer -> parser round trip incl. schema validation. PBN: an independent renderer produces admissible '
-    'import files over the whole layout space named by the property; parsed from StringIO and from a text file.',
+    'import files over the whole layout space named by the property; parsed from StringIO and from a text file, the boards of the first read being played on before the second.',
     'Trusts vf/model/pbn.py as a renderer of admissible PBN 2.1 import files.', '5/C17')
 add('C18', 'exploration', 'Hypothesis result sequences (names up to the exact line limit): PbnWriter -> PbnParser round trip, line-length invariant; atheris on the same tests (thorough)',
     'hypothesis-inprocess+atheris',
     'Generated sequences of 1-6 board results through one PbnWriter; parse_all / parse_board_settings must return the '
-    'games one by one with the 15 mandatory tags and written values; every line <= 255 characters.',
+    'games one by one with the 15 mandatory tags and written values (decoded deals are used before the second read); every line <= 255 characters.',
     'Names limited to the property alphabet and to lengths that fit on a line.', '5/C18')
 
 add('C19', 'exploration', 'enumerated + Hypothesis builder->parser round trips; scripted-socket framing with generated chunking and end-of-stream faults',
@@ -96,7 +96,7 @@ add('C19', 'exploration', 'enumerated + Hypothesis builder->parser round trips; 
     'All calls x seats x case variants x alert suffixes and all cards x seats x notations x case variants are '
     'enumerated; hands, case masks, message streams, chunkings and end-of-stream positions are generated; server-built '
     'headers and Teams lines come from simulated sessions, and in simulated sessions with generated auctions, plays and alerts every line the server sends is read with the bundled client\'s own parsers. A deterministic spin detector (1000 empty reads) replaces '
-    'any wall-clock timeout.',
+    'any wall-clock timeout; a quarter of the streams are also delivered over a real socketpair by a sender thread.',
     'Alert suffix limited to the documented form; scripted socket models recv() returning b"" at end-of-stream.', '5/C19')
 
 SIM_NOTE = ('Trusts the simulation kernel (vf/sim): CPython semantics of Event/Queue/Barrier, lossless ordered in-memory byte '
@@ -110,13 +110,13 @@ add('C08', 'exploration', 'simulated sessions under generated schedules; model-c
 add('C09', 'exploration', 'schedule-owning simulation: generated schedules (preemption lists, PCT, stalls, random, eager timeouts) + complete <=1-deviation schedule sets, with deadlock detection',
     'sim-sessions',
     'Thread schedules are generated inputs; a lost wake-up shows up deterministically as "no task enabled while one is '
-    'unfinished". Thousands of sessions x schedules per run incl. stalls of every thread, plus the complete set of schedules with at most one deviation from the default policy for fixed small sessions. Found and fixed the '
+    'unfinished". Thousands of sessions x schedules per run incl. stalls of every thread and second sessions hosted by the same Server object, plus the complete set of schedules with at most one deviation from the default policy for fixed small sessions. Found and fixed the '
     'stale-flag barrier deadlock (confirmed on real threads).', SIM_NOTE, '5/C09')
 add('C10', 'exploration', 'simulated sessions: complete per-connection byte streams vs model-computed event sequences',
     'sim-sessions',
     'Every line the server sends on each of the four connections is compared, as an event sequence read with '
     'tolerant readers, with the exact sequence the script entitles that seat to; a global step clock orders the '
-    'disclosure of dummy against the opening lead.', SIM_NOTE, '5/C10')
+    'disclosure of dummy against the opening lead. A fifth of the sessions have a second table (own Server, clients, boards, log) running concurrently in the same process, judged by the same oracles; boards that leave the deal to the table manager keep their configured header.', SIM_NOTE, '5/C10')
 add('C13', 'fault_enumeration', 'fault injection into simulated sessions at generated abort points + real SIGINT to a real server process; parse-back oracle',
     'sim-sessions',
     'One offending action of each of 10 kinds (or an operator interrupt) is injected at a generated board, phase and '
